@@ -11,6 +11,16 @@ pub struct InitView {
     pub has_crypto: bool,
 }
 
+/// a handshake object whose 4 salt bytes are prescribed (the rest of the salted node-id hash is computed as `InitState::new` does)
+pub fn set_salt<P: Payload>(s: &mut InitState<P>, salt: [u8; 4]) {
+    let mut hash = [0; SALTED_NODE_ID_HASH_LEN];
+    hash[0..4].clone_from_slice(&salt);
+    hash[4..].clone_from_slice(&s.node_id);
+    let d = digest::digest(&digest::SHA256, &hash);
+    hash[4..].clone_from_slice(&d.as_ref()[..16]);
+    s.salted_node_id_hash = hash;
+}
+
 pub fn view<P: Payload>(s: &InitState<P>) -> InitView {
     InitView {
         stage: s.next_stage,
